@@ -54,7 +54,8 @@ def environment(chk, prog):
         oks = oks and renorm(g_) == leaf
     chk.require(oks, "ENV", "Environment.read", "get or raise on an unbound variable", derived=show(r.ret)[:120], expected="self.get(var), ValueError when unbound", where=W("read"))
     r = ev.eval_fn(E.methods["copy"], E.module, E)
-    okc = is_t(r.ret, "ctor") and r.ret[1] == "Environment" and is_t(r.ret[2][0], "dictfam")
+    # a FRESH dictionary with the same bindings: dict(self.env) (the canonical form of {k: self.env[k] for k in self.env} as well) - not self.env itself
+    okc = is_t(r.ret, "ctor") and r.ret[1] == "Environment" and len(r.ret[2]) == 1 and (is_t(r.ret[2][0], "dictfam") or r.ret[2][0] == ("call", G("dict"), (("attr", SELF, "env"),), ()))
     chk.require(okc, "ENV", "Environment.copy", "a fresh dictionary with the same bindings", derived=show(r.ret)[:160], expected="Environment({k: self.env[k] for k in keys})", where=W("copy"))
 
 
